@@ -85,7 +85,7 @@ func hugeSkewChild(c *Ctx) {
 		c.R.Eval(1)
 		c.R.Count("refused_skew_probes", 1)
 		k := vtotpCase{KeyHex: hexs([]byte("12345678901234567890")), Secret: ref.Base32Encode([]byte("12345678901234567890")), At: gen.InstantSpec{Unix: 1 << 40}, Period: 30, Skew: skew, Digits: 6,
-			Submitted: hexs([]byte(ref.TOTP([]byte("12345678901234567890"), 1<<40, 30, 6, 0))), Note: fmt.Sprintf("refused skew %d, genuine code at distance +0 (child process)", skew)}
+			Submitted: []string{hexs([]byte(ref.TOTP([]byte("12345678901234567890"), 1<<40, 30, 6, 0)))}, Notes: []string{fmt.Sprintf("refused skew %d, genuine code at distance +0 (child process)", skew)}}
 		switch {
 		case strings.Contains(s, "UNBOUNDED"):
 			c.R.Violate("C04|ValidateTOTP|unbounded-work|", "ValidateTOTP performs work unbounded in the skew parameter (allocation count exceeded 8x a full admissible window)", "vtotp", k, "(false, error) after bounded work", strings.TrimSpace(s))
